@@ -616,8 +616,7 @@ func runC14(rc *RunCtx) {
 	nd := kvNDModel
 	initKey := init0.key()
 	nd.Init = func() []any { return []any{initKey} }
-	model := nd.ToModel()
-	res := porcupine.CheckOperationsTimeout(model, ops, 20*time.Second)
+	res := checkBounded(nd, ops, 400000)
 	switch res {
 	case porcupine.Illegal:
 		s.Violate("C14", "history-not-linearizable", map[string]any{"faulty": s.Faults["err-na"] > 0, "plain_disk": opts.Plain},
